@@ -38,6 +38,7 @@ fn dispatch(cmd: &str, args: &[&str]) -> String {
         "DEC" => wire::dec(args),
         "DECS" => wire::decs(args),
         "ENC" => wire::enc(args),
+        "RT" => wire::rt(args),
         "CMP" => lang::cmp(args),
         "AST" => lang::ast(args),
         "BKD" => bkd::bkd(args),
